@@ -25,7 +25,8 @@ CONSTANTS Pods, Ctrs, PodOf,       \* PodOf \in [Ctrs -> Pods]
           SyncStates,              \* container states a Synchronize list may report (subset of created/running/stopped)
           ConsistentEnv,           \* TRUE: the runtime only sends lifecycle events that fit its own view of a container (C05);
                                    \* FALSE: any event at any time, for known and unknown ids (C14)
-          StrictPolicy             \* TRUE: the policy only writes to created/running containers and the one being created
+          StrictPolicy,            \* TRUE: the policy only writes to created/running containers and the one being created
+          WithEvents               \* TRUE: policy events (cold start completion) arrive between requests
 
 VARIABLES
     pods,      \* pods in the cache
@@ -35,9 +36,10 @@ VARIABLES
     rt,        \* runtime view: id -> partial function Fields -> Vals: what the plugin has told the runtime
     rtlive,    \* containers the runtime considers alive (created/running, not stopped/removed)
     residue,   \* history: ids whose change was left pending by a FAILED request (explains known findings)
+    evpend,    \* history: ids whose pending change was made by a policy EVENT and awaits the next request that drains
     reply      \* last reply: [ev, c, err, adj, upd, pushed]
 
-vars == <<pods, ctrs, req, pend, rt, rtlive, residue, reply>>
+vars == <<pods, ctrs, req, pend, rt, rtlive, residue, evpend, reply>>
 
 States == {"creating", "created", "running", "exited", "stale"}
 NoReq  == [k |-> "none", f |-> <<>>]
@@ -103,7 +105,7 @@ None == "-"
 (* Handlers *)
 
 Init ==
-    /\ pods = {} /\ ctrs = <<>> /\ req = <<>> /\ pend = {} /\ rt = <<>> /\ rtlive = {} /\ residue = {}
+    /\ pods = {} /\ ctrs = <<>> /\ req = <<>> /\ pend = {} /\ rt = <<>> /\ rtlive = {} /\ residue = {} /\ evpend = {}
     /\ reply = Reply("Init", None, FALSE, <<>>, <<>>, <<>>)
 
 RunPod(p) ==
@@ -263,6 +265,17 @@ Reconfigure ==
                  /\ reply' = Reply("Reconfigure", None, TRUE, <<>>, <<>>, d.upd)
                  /\ UNCHANGED <<pods, rtlive, residue>>
 
+\* A policy event (topology-aware: the cold start timer of container c fires) handled under the lock: the policy
+\* re-allocates c's memory and records the new pinning; there is no reply to carry it, the change is delivered by
+\* whichever request comes next (at this commit resmgr.processEvent drops policy events; the action models the
+\* hand-over HandleEvent is written for).
+PolicyEvent(c) ==
+    /\ WithEvents /\ c \in Cached /\ ctrs[c].st \in {"created", "running"}
+    /\ \E ws \in WriteSeqs({c}) : SetSt(ApplyWrites(St, ws))
+    /\ evpend' = evpend \cup (pend' \ pend)
+    /\ reply' = Reply("Event", c, FALSE, <<>>, <<>>, <<>>)
+    /\ UNCHANGED <<pods, rt, rtlive, residue>>
+
 \* what a runtime that is consistent with its own bookkeeping may send
 EnvOK(ev, c) ==
     ~ConsistentEnv \/
@@ -274,7 +287,7 @@ EnvOK(ev, c) ==
 \* a consistent runtime stops the containers of a pod (StopContainer) before it stops or removes the pod
 PodEnvOK(p) == ~ConsistentEnv \/ ~\E c \in rtlive : PodOf[c] = p
 
-Next ==
+Request ==
     \/ \E p \in Pods : RunPod(p) \/ (PodEnvOK(p) /\ StopPod(p)) \/ (PodEnvOK(p) /\ RemovePod(p))
     \/ \E c \in Ctrs : \/ (EnvOK("Create", c) /\ Create(c)) \/ (EnvOK("Start", c) /\ Start(c))
                        \/ (EnvOK("Update", c) /\ Update(c)) \/ (EnvOK("Stop", c) /\ Stop(c))
@@ -285,6 +298,10 @@ Next ==
           /\ (ConsistentEnv => \A c \in D : PodOf[c] \in P /\ (C[c] # "stopped" => (c \in rtlive \/ c \notin Cached)))
           /\ Sync(P, C)
     \/ Reconfigure
+
+Next ==
+    \/ Request /\ evpend' = evpend \cap pend'
+    \/ \E c \in Ctrs : PolicyEvent(c)
 
 Spec == Init /\ [][Next]_vars
 
@@ -316,9 +333,10 @@ AdjDescribesCreated(r, cache) ==
 
 \* design-level statement: the invariants hold except for changes left behind by failed requests
 \* (named deviation, see `residue`; the trace spec checks the plain predicates against the real code)
+\* (a change made by a policy event is pending by design until a request whose reply can carry updates drains it)
 Inv_RuntimeEqualsCache ==
-    \A w \in Bad_RuntimeEqualsCache(rt, rtlive, ctrs) : w[1] \in residue
-Inv_NothingPending == Bad_NothingPending(pend, rtlive, ctrs) \subseteq residue
+    \A w \in Bad_RuntimeEqualsCache(rt, rtlive, ctrs) : w[1] \in residue \cup evpend
+Inv_NothingPending == Bad_NothingPending(pend, rtlive, ctrs) \subseteq residue \cup evpend
 Inv_NoUpdateToDead == Bad_UpdateToDead(reply, rtlive) \subseteq residue
 Inv_AdjDescribesCreated == AdjDescribesCreated(reply, ctrs)
 \* the pending request object is an adjustment only while the container is being created (or its creation failed)
